@@ -126,6 +126,7 @@ class Controller:
 
 _CTL = [None]
 _INSTALLED = [False]
+_HAS_ABANDON = [False]
 
 
 def zombie_handler_fn():
@@ -152,6 +153,13 @@ def install_monitoring():
             code = getattr(cls, fn).__code__
             names[code] = fn
             mon.set_local_events(TOOL, code, mon.events.PY_START | mon.events.PY_RETURN)
+
+    import types as _types
+    for const in Sandbox._execute_with_timeout.__code__.co_consts:
+        if isinstance(const, _types.CodeType) and const.co_name == 'abandon_execution':
+            names[const] = 'abandon_execution'
+            mon.set_local_events(TOOL, const, mon.events.PY_START | mon.events.PY_RETURN)
+            _HAS_ABANDON[0] = True
 
     def on_start(code, off):
         c = _CTL[0]
@@ -400,6 +408,157 @@ def run_case(ctx, case):
                     'next': got_next[:2], 'wall_s': round(wall, 2)})
 
 
+FINITE = {
+    'ends-normally': ("x = 1\nprint('done')\n", None),
+    'ends-silently': ("x = 1\n", None),
+    'ends-with-error': ("print('before')\ny = 1 / 0\n", 'ZeroDivisionError'),
+    'ends-with-exit': ("import sys\nprint('bye')\nsys.exit(0)\n", 'SystemExit'),
+}
+
+
+def run_deadline_case(ctx, case):
+    """The student's code ends just as the limit expires: the student thread is held inside pedal's own end-of-execution
+    work (at _stop_mocking, i.e. under whatever lock the code takes there) until the grader thread has decided that the time
+    is up. Either reading of the race is acceptable (finished, or timed out) - but the call returns, there is at most one
+    runtime feedback and it agrees with get_exception(), nothing stays patched, and later executions are unaffected."""
+    from props import sbx_common as sc
+    from pedal.sandbox import commands as sbx
+    install_monitoring()
+    prog, entry, allowed, nexts = case['program'], case['entry'], case['allowed_time'], case['next']
+    body, own_exc = FINITE[prog]
+    helpers = "def add(a, b):\n    print('adding', a, b)\n    return a + b\n\n"
+    if entry == 'run':
+        files = {'answer.py': helpers + body}
+    else:
+        ind = '\n'.join(('    ' + l) if l else l for l in body.rstrip('\n').split('\n'))
+        files = {'answer.py': helpers + 'def slow():\n' + ind + '\n    return 1\n'}
+    want_next = fresh_reference(files, nexts)
+    sandbox, report = sc.new_sandbox(files)
+    sandbox.allowed_time = allowed
+    if entry != 'run':
+        sbx.run(threaded=False)
+    n_rt_before = len(runtime_feedbacks(report))
+    real_out = io.StringIO()
+    saved_stdout = sys.stdout
+    sys.stdout = real_out
+    snap = sc.Snapshot(sandbox)
+    ctl = Controller()
+    variant = case.get('variant', 'inside-its-own-finish')
+    if variant == 'inside-its-own-finish':
+        decided = ('G', 'abandon_execution', 'start') if _HAS_ABANDON[0] else ('G', 'terminate', 'start')
+        held_at = '_stop_mocking'
+        ctl.holds.append(('Z1', '_stop_mocking', 'start', 1, decided, 1))
+    else:
+        # 'between-disown-and-interrupt': the student's code ends after the grader has disowned the execution but before the
+        # grader interrupts the thread, so the interrupt finds a thread that is already gone
+        if not _HAS_ABANDON[0] or zombie_handler_fn() != '_finish_execution':
+            ctx.count('deadline_variant_not_applicable_to_this_tree')
+            sys.stdout = saved_stdout
+            return
+        decided = ('G', 'abandon_execution', 'return')
+        held_at = '_finish_execution'
+        ctl.holds.append(('Z1', '_finish_execution', 'start', 1, decided, 1))
+        ctl.holds.append(('G', 'abandon_execution', 'return', 1, ('Z1', '_execute', 'return'), 1))
+    _CTL[0] = ctl
+    ctl.active = True
+    raised = None
+    returned = threading.Event()
+    main_ident = threading.main_thread().ident
+    t0 = time.time()
+
+    def hang_watchdog():
+        if returned.wait(allowed + 25):
+            return
+        frame = sys._current_frames().get(main_ident)
+        stack = traceback.extract_stack(frame) if frame is not None else []
+        where = ' > '.join('%s:%s:%d' % (f.filename.split('/')[-1], f.name, f.lineno) for f in stack[-6:])
+        if [f for f in stack if f.filename.endswith('pedal/sandbox/timeout.py')] and not ctl.expired:
+            ctx.case(deadline_label(case))
+            ctx.violation('C14|call-does-not-return|student-finishing-at-the-limit', public(case),
+                          'the threaded call has not returned %.0fs after a %.2fs limit; the grader thread is inside %s' % (time.time() - t0, allowed, where))
+        else:
+            ctx.inconclusive('watchdog: deadline case still running, grader at %s (%s)' % (where, deadline_label(case)))
+        ctx.emergency_dump_and_exit()
+    threading.Thread(target=hang_watchdog, daemon=True).start()
+    try:
+        try:
+            if entry == 'run':
+                sbx.run(threaded=True)
+            elif entry == 'call':
+                sbx.call('slow', threaded=True)
+            else:
+                sbx.evaluate('slow()', threaded=True)
+        except BaseException as e:
+            raised = e
+        returned.set()
+        at_return = observe(sandbox, report, snap, n_rt_before, sbx)
+        # quiescence: the student thread is gone
+        deadline = time.time() + GATE_TIMEOUT + 4
+        while time.time() < deadline and any(t.is_alive() for t in ctl.zombie_threads):
+            time.sleep(0.01)
+        quiesced = not any(t.is_alive() for t in ctl.zombie_threads)
+        at_quiescence = observe(sandbox, report, snap, n_rt_before, sbx)
+        got_next = [do_next(sbx, k) for k in nexts]
+        after_all = observe(sandbox, report, snap, n_rt_before, sbx, count_feedback=False)
+    finally:
+        sys.stdout = saved_stdout
+        ctl.active = False
+        with ctl.cv:
+            ctl.cv.notify_all()
+        _CTL[0] = None
+    ctx.count('deadline_races_driven')
+    order = order_signature(ctl.log)
+    ctx.seen('cross_thread_event_orders', order)
+    if ctl.expired:
+        ctx.inconclusive('gate expired: %s (%s)' % (ctl.expired[0], deadline_label(case)))
+        return
+    if not quiesced:
+        ctx.inconclusive('student thread did not end (%s)' % deadline_label(case))
+        return
+    zs = idx(ctl.log, 'Z1:%s:start' % held_at)
+    gd = idx(ctl.log, ':'.join(decided))
+    zr = idx(ctl.log, 'Z1:released-after:' + ':'.join(decided))
+    if zs is None or gd is None or zr is None or not (zs < gd < zr):
+        ctx.inconclusive('deadline race not produced (%s): %s' % (deadline_label(case), order))
+        return
+    ctx.count('forced_orders_confirmed')
+    ctx.count('timeouts_observed')
+    ctx.seen('interleavings', 'student-finishing-at-the-limit/' + variant)
+    ctx.seen('programs', prog)
+    ctx.case(deadline_label(case))
+    cs = public(case)
+    if raised is not None:
+        ctx.violation('C14|call-raised|%s|%s|student-finishing-at-the-limit/%s' % (type(raised).__name__, entry, variant), cs,
+                      {'raised': traceback.format_exception_only(type(raised), raised)[-1][:300], 'events': order})
+        return
+    for when, ob in (('at-return', at_return), ('at-quiescence', at_quiescence)):
+        acceptable = {'TimeoutError': ['TimeoutError'], own_exc: [own_exc] if own_exc else []}
+        if ob['exception'] not in acceptable:
+            ctx.violation('C14|deadline-race|exception-is-neither-timeout-nor-the-programs-own|%s' % when, cs,
+                          {'get_exception': ob['exception'], 'program ends with': own_exc, 'events': order})
+        elif ob['runtime_names'] != acceptable[ob['exception']]:
+            ctx.violation('C14|deadline-race|runtime-feedback-count-%d|%s' % (ob['new_runtime'], when), cs,
+                          {'get_exception': ob['exception'], 'runtime feedbacks': ob['runtime_names'], 'events': order})
+    for when, ob in (('at-return', at_return), ('at-quiescence', at_quiescence), ('after-next-executions', after_all)):
+        for what, detail in ob['diffs']:
+            ctx.violation('C14|patch-state|%s|%s|student-finishing-at-the-limit/%s' % (what, when, variant), cs, {'what': what, 'detail': detail, 'events': order})
+    for i, (want, got) in enumerate(zip(want_next, got_next)):
+        if want != got:
+            field = next(k for k in want if want[k] != got[k])
+            ctx.violation('C14|next-execution-altered|%s|student-finishing-at-the-limit|program=%s' % (field, prog), cs,
+                          {'next': nexts[i], 'fresh sandbox': want, 'this sandbox': got, 'events': order})
+            break
+    leaked = real_out.getvalue()
+    if leaked:
+        ctx.violation('C14|wrote-to-real-stdout|student-finishing-at-the-limit', cs, leaked[:200])
+    if ctx.evaluations % 5 == 0:
+        ctx.sample({'case': cs, 'event_order': order, 'at_return': at_return, 'at_quiescence': at_quiescence, 'next': got_next[:1]})
+
+
+def deadline_label(case):
+    return 'deadline/%s/%s/%s/%.2f/%s' % (case.get('variant', 'inside-its-own-finish'), case['program'], case['entry'], case['allowed_time'], ','.join(case['next']))
+
+
 def observe(sandbox, report, snap, n_rt_before, sbx, count_feedback=True):
     exc = unwrap(sbx.get_exception())
     rts = runtime_feedbacks(report)[n_rt_before:]
@@ -506,7 +665,20 @@ def run(ctx):
                 k[0], k[1] = k[1], k[0]
             case['next'] = k
             run_case(ctx, case)
+    finite = [{'program': p, 'entry': e, 'kind': 'deadline', 'variant': v} for p in FINITE for e in ('run', 'call', 'evaluate')
+              for v in ('inside-its-own-finish', 'between-disown-and-interrupt')]
+    for rep in range(ctx.pick(1, 4)):
+        for c in finite[ctx.shard::ctx.nshards]:
+            if ctx.time_left() < 12:
+                break
+            case = dict(c)
+            case['allowed_time'] = rng.choice([0.05, 0.1, 0.2])
+            case['next'] = rng.sample([k for k in NEXT_KINDS], 2)
+            run_deadline_case(ctx, case)
 
 
 def replay(ctx, case):
-    run_case(ctx, case)
+    if case.get('kind') == 'deadline':
+        run_deadline_case(ctx, case)
+    else:
+        run_case(ctx, case)
